@@ -43,6 +43,8 @@ Post(e) ==
     [] e.e = "Stop" -> StopF(s)
     [] e.e = "RConnect" -> RConnectF(s, e.arg)
     [] e.e = "RDisconnect" -> RDisconnectF(s, e.arg)
+    [] e.e = "Slow" -> QualityF(s, TRUE)
+    [] e.e = "Fast" -> QualityF(s, FALSE)
 
 OutOf(w, q) == FlattenSeq(w) \o q
 
@@ -60,7 +62,11 @@ PropFlags(post, p, e) ==
 \cup (IF p.fake # post.fake THEN {"fake"} ELSE {})
 \cup (IF \E d \in Dest : \E k \in 1..Len(p.wire[d]) : Len(p.wire[d][k]) < 1 \/ Len(p.wire[d][k]) > MaxPerMsg
         THEN {"batch"} ELSE {})
-\cup (IF p.closedNonEmpty THEN {"stopflush"} ELSE {})
+\* a connection began to close in this callback while its queue still held datapoints, or bytes were written to a
+\* connection that was already closing - unless a connection-quality reset closed it (its buffer is still transmitted)
+\cup (IF \E d \in Dest : \/ (p.newclose[d] /\ ~(post.rclosed[d] /\ post.closedBad = s.closedBad))
+                         \/ (p.wac[d] /\ ~post.rclosed[d])
+        THEN {"stopflush"} ELSE {})
 \* the routes are taken from the recorded execution (the hash ring decides them), but not blindly: while a destination
 \* is configured after the callback, nothing routed during it may have gone nowhere, and a route only names
 \* destinations configured before or after it
